@@ -42,6 +42,7 @@ package goat
 
 //@ func goat.(*handler).resetStream
 //@   nopanic[C12.nopanic]
+//@   ctxaware[C10.read_loop_escapes]
 //@   requires rpc != nil && rpc.Header != nil
 //@   atcall[C06.reset_shape C12.reset_for_unknown C16.return_route] (types.RpcReadWriter).Write :
 //@     | arg2 != nil && arg2.Id == rpc.Id && arg2.Reset_ != nil && arg2.Reset_.Type == "RST_STREAM" && arg2.Trailer != nil && arg2.Body == nil && arg2.Status == nil
@@ -59,16 +60,20 @@ package goat
 
 //@ func goat.(*handler).processStreamingRpc
 //@   nopanic[C12.nopanic]
+//@   ctxaware[C10.read_loop_escapes]
 //@   requires[C12.dispatch_wellformed] rpc != nil && rpc.Header != nil && info != nil && sd != nil && clientCtx != nil
 //@   makechan 0 tag rpc.Id class goat.streams.ch
 //@   makechan 1 tag rpc.Id
 //@   atcall[C05.deliver_to_owner C02.forward_unchanged] send : isclass(arg0, "goat.streams.ch") ==> tag(arg0) == rpc.Id && arg1 == rpc
 //@   ensures[C12.start_at_most_once C05.start_at_most_once] ncalls("go:(*github.com/avos-io/goat.handler).runStream") <= old(ncalls("go:(*github.com/avos-io/goat.handler).runStream")) + 1
-//@   ensures[C12.no_start_for_known_or_malformed C14.no_start_for_known_or_malformed] atlock(rpc.Id in h.streams) || (rpc.Reset_ != nil && rpc.Reset_.Type == "RST_STREAM") || rpc.Body != nil || rpc.Trailer != nil ==>
+//@   ensures[C12.no_start_for_known_or_malformed C14.no_start_for_known_or_malformed C06.no_start_for_known_or_malformed C20.no_start_for_known_or_malformed C05.no_start_for_known_or_malformed] atlock(rpc.Id in h.streams) || (rpc.Reset_ != nil && rpc.Reset_.Type == "RST_STREAM") || rpc.Body != nil || rpc.Trailer != nil ==>
 //@     | ncalls("go:(*github.com/avos-io/goat.handler).runStream") == old(ncalls("go:(*github.com/avos-io/goat.handler).runStream"))
 //@   ensures[C12.reset_for_unknown_body] !atlock(rpc.Id in h.streams) && !(rpc.Reset_ != nil && rpc.Reset_.Type == "RST_STREAM") && rpc.Body != nil ==>
 //@     | ncalls("call:goat.(*handler).resetStream") == old(ncalls("call:goat.(*handler).resetStream")) + 1
 //@   ensures[C07.reset_cancels_handler] atlock(rpc.Id in h.streams) && (rpc.Reset_ != nil && rpc.Reset_.Type == "RST_STREAM") ==> done(cancels(atlock(h.streams[rpc.Id].cancel)))
+//@   ensures[C10.registered_only_with_its_goroutine C12.registered_only_with_its_goroutine C14.registered_only_with_its_goroutine] rpc.Id in h.streams && !atlock(rpc.Id in h.streams) ==>
+//@     | ncalls("go:(*github.com/avos-io/goat.handler).runStream") == old(ncalls("go:(*github.com/avos-io/goat.handler).runStream")) + 1
+//@   ensures[C10.only_the_stream_unregisters_itself C14.only_the_stream_unregisters_itself] atlock(rpc.Id in h.streams) ==> rpc.Id in h.streams
 //@   ensures[C14.registered_iff_started C05.registered_iff_started] ncalls("go:(*github.com/avos-io/goat.handler).runStream") == old(ncalls("go:(*github.com/avos-io/goat.handler).runStream")) + 1
 //@     | ==> rpc.Id in h.streams
 
@@ -89,6 +94,7 @@ package goat
 //@   requires ctx != nil && rw != nil && objinv(srv)
 //@   makechan 0 tag 0
 //@   makechan 1 tag 0 class goat.unaryRpcChan
+//@   ensures[C06.writer_handoff_is_synchronous C03.writer_handoff_is_synchronous] cap(result.writeChan) == 0
 //@   ensures[C10.conn_ctx_descends] result != nil && desc(result.ctx, ctx) && cancels(result.cancel) == result.ctx
 //@   ensures[C12.handler_wellformed C10.handler_wellformed] objinv(result) && result.srv == srv && result.rw == rw
 
@@ -144,6 +150,7 @@ package goat
 
 //@ func goat.(*handler).serve
 //@   nopanic[C12.nopanic]
+//@   ctxaware[C10.read_loop_escapes]
 //@   requires clientCtx != nil
 //@   loop 0 invariant[C12.client_ctx] clientCtx != nil
 //@   loop 1 invariant[C12.client_ctx] clientCtx != nil
@@ -170,7 +177,12 @@ package goat
 //@   ensures[C16.dial_on_demand] result != nil && result.id == id && result.fromServer != nil && id in p.clients && p.clients[id] == result
 //@   ensures[C16.dial_once] ncalls("go:(*github.com/avos-io/goat.proxyClient).connect") == old(ncalls("go:(*github.com/avos-io/goat.proxyClient).connect")) + 1
 
+//@ func goat.(*Proxy).Serve
+//@   nopanic[C17.nopanic]
+//@   ensures[C16.single_forwarder] ncalls("call:goat.(*Proxy).serveClients") == old(ncalls("call:goat.(*Proxy).serveClients")) + 1 && ncalls("go:(*github.com/avos-io/goat.Proxy).serveClients") == old(ncalls("go:(*github.com/avos-io/goat.Proxy).serveClients"))
+
 //@ func goat.(*Proxy).forwardRpc
+//@   nonblocking[C17.never_blocks_on_a_destination]
 //@   nopanic[C17.nopanic C16.nopanic]
 //@   requires rpc != nil
 //@   ensures[C17.reject_bad_source] rpc.Header == nil || old(rpc.Header.Source) != source ==>
@@ -234,7 +246,8 @@ package goat
 
 //@ func goat.(*Demux).Run
 //@   nopanic[C18.nopanic]
-//@   loop 0 invariant[C18.run_loop] true
+//@   loop 0 invariant[C18.each_envelope_handed_over_once_in_order] ncalls("send") - ncalls("(types.RpcReadWriter).Read") == loopentry(0, ncalls("send") - ncalls("(types.RpcReadWriter).Read"))
+//@   loop 0 invariant[C18.each_envelope_handed_over_once_in_order] ncalls("go:goat.(*Demux).Run$1") == loopentry(0, ncalls("go:goat.(*Demux).Run$1"))
 //@   atcall[C18.handed_to_keys_connection] send : arg1 == rpc && bound("conn") && arg0 == conn.r && id == lastret("fnfield:H.goat.Demux.demuxOn")
 //@     | && aftercall("sync.Mutex).Unlock", id in gsd.conns.value && gsd.conns.value[id] == conn)
 
@@ -335,10 +348,13 @@ package goat
 //@ func goat.headersFromContext
 //@   nopanic[C08.nopanic C04.nopanic C13.nopanic]
 //@   requires ctx != nil
-//@   ensures[C08.no_deadline_no_timeout_header] !ctx_hasdl(ctx) ==> (ctx_has_md_out(ctx) ==> isKvOfOne(result, ctx_md_out(ctx))) && (!ctx_has_md_out(ctx) ==> len(result) == 0)
-//@   ensures[C08.timeout_header_when_deadline] ctx_hasdl(ctx) ==> len(result) >= 1 && result[len(result) - 1] != nil && result[len(result) - 1].Key == "GRPC-Timeout"
-//@     | && bound("ms") && ms >= 1 && result[len(result) - 1].Value == itoa(ms) + "m" && (timeout >= 1000000 ==> ms == timeout / 1000000) && (timeout < 1000000 ==> ms == 1)
-//@   ensures[C04.request_metadata_encoded] ctx_has_md_out(ctx) ==> (forall j Int :: 0 <= j && j < len(result) ==> result[j] != nil)
+//@   atcall[C04.request_metadata_from_outgoing_context] internal.ToKeyValue : len(arg0) == 1 && arg0[0] == ctx_md_out(ctx)
+//@   atcall[C08.timeout_value_in_ms] fmt.Sprintf : arg0 == "%dm" && bound("ms") && ms >= 1 && (timeout >= 1000000 ==> ms == timeout / 1000000) && (timeout < 1000000 ==> ms == 1)
+//@   ensures[C08.timeout_header_iff_deadline] ncalls("fmt.Sprintf") == old(ncalls("fmt.Sprintf")) + ite(ctx_hasdl(ctx), 1, 0)
+//@   ensures[C08.timeout_header_iff_deadline C04.request_metadata_iff_outgoing] ncalls("call:internal.ToKeyValue") == old(ncalls("call:internal.ToKeyValue")) + ite(ctx_has_md_out(ctx), 1, 0)
+//@   ensures[C08.timeout_header_shape] ctx_hasdl(ctx) ==> len(result) >= 1 && result[len(result) - 1] != nil && result[len(result) - 1].Key == "GRPC-Timeout" && result[len(result) - 1].Value == lastret("fmt.Sprintf", "String")
+//@   ensures[C08.no_deadline_no_timeout_header] !ctx_hasdl(ctx) && !ctx_has_md_out(ctx) ==> len(result) == 0
+//@   ensures[C04.request_headers_wellformed C13.request_headers_wellformed] forall j Int :: 0 <= j && j < len(result) ==> result[j] != nil
 
 //@ func goat.(*ClientConn).invoke
 //@   nopanic[C13.nopanic]
@@ -349,6 +365,7 @@ package goat
 //@   atcall[C01.request_bytes] (google.golang.org/grpc/encoding.CodecV2).Marshal : arg1 == args
 //@   atcall[C01.reply_decoded_into_reply] (google.golang.org/grpc/encoding.CodecV2).Unmarshal : bound("replyBody") && replyBody != nil && bufContent(arg1[0]) == replyBody.Data && arg2 == reply
 //@   ensures[C01.one_call C20.one_call] ncalls("call:client.(*RpcMultiplexer).CallUnaryMethod") <= old(ncalls("call:client.(*RpcMultiplexer).CallUnaryMethod")) + 1
+//@   ensures[C13.decode_error_reported C01.decode_error_reported] ncalls("(google.golang.org/grpc/encoding.CodecV2).Unmarshal") == old(ncalls("(google.golang.org/grpc/encoding.CodecV2).Unmarshal")) + 1 ==> result == lastret("CodecV2).Unmarshal")
 //@   ensures[C03.error_passed_on C13.success_only_with_data] result == nil ==> ncalls("(google.golang.org/grpc/encoding.CodecV2).Unmarshal") == old(ncalls("(google.golang.org/grpc/encoding.CodecV2).Unmarshal")) + 1
 //@   ensures[C20.begin_end_once] ncalls("call:internal.StatsStartServerRPC") == old(ncalls("call:internal.StatsStartServerRPC")) + 1 && ncalls("call:internal.StatsEndRPC") == old(ncalls("call:internal.StatsEndRPC")) + 1
 
